@@ -195,6 +195,16 @@ var taoFoto = ev.Register(&ev.P[dayCase]{
 		if strings.Join(gotFo, "|") != strings.Join(wantFo, "|") {
 			return fmt.Errorf("%s (lunar %d/%d): Foto festivals %v, table gives %v", w, lm, ld, gotFo, wantFo)
 		}
+		// Taoist and Buddhist facts are no function of the eight-character chart's day-boundary switch
+		preds := func() string {
+			return fmt.Sprint(tao.IsDayBaJie(), tao.IsDayBaHui(), tao.IsDayMingWu(), tao.IsDayAnWu(), tao.IsDayWu(), tao.IsDaySanHui(), tao.IsDaySanYuan(), tao.IsDayWuLa(),
+				foto.IsDayYangGong(), foto.IsDayZhaiShuoWang(), foto.IsDayZhaiSix(), foto.IsDayZhaiTen(), foto.IsDayZhaiGuanYin(), foto.IsMonthZhai(), foto.GetXiu(), foto.GetGong(), foto.GetShou())
+		}
+		p0 := preds()
+		l.GetEightChar().SetSect(1)
+		if p1 := preds(); p1 != p0 {
+			return fmt.Errorf("%s (lunar %d/%d/%d): Tao/Foto predicates %s become %s after the chart's SetSect(1)", w, ly, lm, ld, p0, p1)
+		}
 		// the same objects asked again (and after their predicates and printed forms were used) give the same lists
 		_, _, _, _ = tao.IsDayBaJie(), tao.IsDayBaHui(), tao.ToFullString(), foto.ToFullString()
 		var againT, againF []string
@@ -259,6 +269,16 @@ func TestC17(t *testing.T) {
 		for _, x := range [][3]int{{15, 12, 30}, {15, 12, 31}, {18, 12, 27}, {18, 12, 28}, {18, 12, 29}, {18, 12, 30}, {18, 12, 31}} {
 			taoFoto.Eval(dayCase{ref.JDN(x[0], x[1], x[2]), 0, 0, 0})
 			taoFoto.Eval(dayCase{ref.JDN(x[0], x[1], x[2]), 23, 59, 59})
+		}
+	}
+	// a dense window of days asked again in scrambled order (same oracle, different predecessor: a memo keyed on too
+	// little answers the previous question)
+	{
+		start := ref.JDN(2019, 1, 1) + ev.Shard*230
+		for _, perm := range ev.Shuffled(460, ev.Pick(2, 8), 17) {
+			for _, k := range perm {
+				taoFoto.Eval(dayCase{start + k, []int{12, 23, 0}[k%3], 30, 0})
+			}
 		}
 	}
 	taoFoto.Rapid(ev.Share(ev.Pick(16000, 320000)), func(t *rapid.T) dayCase {
